@@ -92,7 +92,16 @@ Definition g_jk_F4 (H : string -> string) (h : list (jk_cfg * jtok)) : bool := e
 
 Definition jk_cfg_eqb (a b : jk_cfg) : bool :=
   String.eqb (jurl_text (jk_url a)) (jurl_text (jk_url b)) && alist_eqb (jk_headers a) (jk_headers b) &&
-  option_eqb Z.eqb (jk_ttl a) (jk_ttl b).
+  option_eqb Z.eqb (jk_ttl a) (jk_ttl b) && Bool.eqb (jk_validate a) (jk_validate b).
+
+(** C11-F11 (= C05-F4): two jwt authenticators on one JWKS endpoint of which only one validates the
+    JWK's certificate chain look the same key up (the key has no mechanism id, a hit skips validateJWK) *)
+Definition p_F11 (H : string -> string) (a b : jk_cfg * jtok) : bool :=
+  jk_enabled (fst a) && jk_enabled (fst b) &&
+  flds_eqb (jk_fields H (fst a) (snd a)) (jk_fields H (fst b) (snd b)) &&
+  negb (Bool.eqb (jk_validate (fst a)) (jk_validate (fst b))).
+
+Definition g_F11 (H : string -> string) (h : list (jk_cfg * jtok)) : bool := exists_pair (p_F11 H) h.
 
 Definition jtok_eqb (a b : jtok) : bool :=
   String.eqb (t_iss a) (t_iss b) && String.eqb (t_kid a) (t_kid b) && String.eqb (t_signer a) (t_signer b) &&
